@@ -21,6 +21,8 @@ pub mod c13;
 pub mod scripted;
 #[cfg(feature = "security")]
 pub mod secsmoke;
+#[cfg(feature = "security")]
+pub mod c19;
 
 pub struct Spec {
   pub id: &'static str,
@@ -78,6 +80,8 @@ pub fn spec(id: &str) -> Option<Spec> {
     "X01" => Some(e2smoke::spec()),
     #[cfg(feature = "security")]
     "X02" => Some(secsmoke::spec()),
+    #[cfg(feature = "security")]
+    "C19" => Some(c19::spec()),
     _ => None,
   }
 }
@@ -100,6 +104,8 @@ pub fn run(id: &str, tier: &str, ctx: &mut Ctx) -> Check {
     "X01" => e2smoke::run(tier, ctx),
     #[cfg(feature = "security")]
     "X02" => secsmoke::run(tier, ctx),
+    #[cfg(feature = "security")]
+    "C19" => c19::run(tier, ctx),
     _ => panic!("unknown property {id}"),
   }
 }
